@@ -8,6 +8,7 @@ import (
 
 	"verifharness/internal/c06"
 	"verifharness/internal/c10"
+	"verifharness/internal/c12"
 	"verifharness/internal/common"
 )
 
@@ -16,6 +17,7 @@ type sub func(tier string, seed int64, outDir string) *common.Meta
 var subs = map[string]sub{
 	"c06": c06.Run,
 	"c10": c10.Run,
+	"c12": c12.Run,
 }
 
 var gens = map[string]func(outDir string) error{
